@@ -1386,3 +1386,26 @@ def check_C06(A, R, tier):
                      "end in.  The remaining InternalError arms and two assertions need inter-job invariants and are listed, not judged.")
     R.assume("the InternalError arms that depend on inter-job invariants (listed in coverage.internal_error_sites_reachable_in_the_abstraction) are not decided")
     R.assume("known finding F7 (C07 R7.5) is a reachable internal error; it is reported under C07")
+
+
+def rule_no_positional_pairing_of_id_pieces(A, R, rule):
+    """the outputs named in two *different* multi-output ids are compared as sets: pairing the pieces of one id with the pieces of
+    another by position (zip) calls two ids unrelated as soon as one of them gained or lost an output in front"""
+    n = 0
+    bad = []
+    seen = set()
+    for (entry, label), run in all_runs(A):
+        for v in run.by_kind("zip"):
+            if (v["fn"], v["bb"]) in seen:
+                continue
+            seen.add((v["fn"], v["bb"]))
+            if v["a"] and v["b"]:
+                n += 1
+                pa = set(p_[1] for p_ in v["a"])
+                pb = set(p_[1] for p_ in v["b"])
+                if pa != pb:
+                    bad.append(v)
+    R.ob(rule, "pieces of two different ids are never paired by position", not bad,
+         detail="%s pairs the ':::'-pieces of two ids position by position; an output inserted in front of the others shifts every "
+                "position and the overlap counts as zero" % (short(bad[0]["fn"]) if bad else ""), site=A.site(bad[0]) if bad else "")
+    R.info["positional_pairings_of_pieces"] = n
